@@ -148,6 +148,23 @@ func genC08(r *gen.Rand) *C08Case {
 	if r.Chance(0.06) {
 		anchorAt = r.Intn(nLayers) // one layer is hand-written YAML with anchors and aliases
 	}
+	if r.Chance(0.03) {
+		// a YAML layer with very long physical lines (a blob, a certificate
+		// bundle) and content after them: sizes beyond one scanner / pipe / read
+		// buffer, checked against the same layer stored as JSON
+		n := gen.PickAny(r, []int{4096, 65535, 65536, 70000, 200000})
+		doc := map[string]any{"a": 1, "pad": strings.Repeat("0123456789abcdef", n/16+1)[:n], "zz_after": map[string]any{"k": 2, "l": []any{"x", "y"}}}
+		second := map[string]any{"second": true, "n": r.Intn(9)}
+		ext := r.Pick("yaml", "yml")
+		w.Files = append(w.Files, procsim.File{Path: filepath.Join(c08Dir, "bulk."+ext), Docs: treeDocs(doc, second)})
+		c.Inv.Cwd = c08Dir
+		c.Inv.Env = map[string]string{"VERIF_A": "va", "VERIF_B": "3"}
+		c.Inv.Kind = r.Pick("inst", "stock")
+		c.Inv.Sched = &wire.Sched{Mode: "Hash", Seed: r.U64() >> 1, Coin: 0.5}
+		c.Inv.StepBudget = ProcStepBudget
+		c.Inv.Args = []string{"-f", r.Pick("json", "yaml"), "bulk." + ext}
+		return c
+	}
 	if r.Chance(0.04) {
 		// values at a type boundary that only TOML can carry (nan, inf): an
 		// encoder may refuse them late, after earlier documents of a large
@@ -643,6 +660,98 @@ func yamlStreamOK(s string) bool {
 	return true
 }
 
+// formatSafe reports whether YAML and JSON decode a tree to the same values:
+// strings, bools and small integers only (floats and 64-bit integers are where
+// the decoders are known to differ — C04, not claimed).
+func formatSafe(v any) bool {
+	switch x := v.(type) {
+	case map[string]any:
+		for _, e := range x {
+			if !formatSafe(e) {
+				return false
+			}
+		}
+		return true
+	case []any:
+		for _, e := range x {
+			if !formatSafe(e) {
+				return false
+			}
+		}
+		return true
+	case int:
+		return x > -(1<<31) && x < 1<<31
+	case string, bool:
+		return true
+	case nil:
+		return true
+	}
+	return false
+}
+
+// jsonTwin returns the same world with every YAML layer stored as JSON and
+// the same invocation with the output format pinned, or nil if the case is
+// not eligible (faults, raw bytes, TOML, values on which the decoders differ).
+func jsonTwin(c *C08Case) *C08Case {
+	if c.Tool != "bkl" || len(c.Faults) > 0 || c.OutFile != "" || c.Inv.Stdin != "" || len(c.World.Links) > 0 {
+		return nil
+	}
+	js, _ := json.Marshal(c)
+	var n C08Case
+	if json.Unmarshal(js, &n) != nil {
+		return nil
+	}
+	renamed := map[string]string{}
+	any := false
+	for i := range n.World.Files {
+		f := &n.World.Files[i]
+		if f.Raw != nil {
+			return nil
+		}
+		e := procsim.Ext(f.Path)
+		if e == "toml" {
+			return nil
+		}
+		for _, d := range f.Docs {
+			if !formatSafe(d.V) {
+				return nil
+			}
+		}
+		if e == "yaml" || e == "yml" {
+			np := strings.TrimSuffix(f.Path, "."+e) + ".json"
+			renamed[filepath.Base(f.Path)] = filepath.Base(np)
+			f.Path = np
+			any = true
+		}
+	}
+	if !any {
+		return nil
+	}
+	format := c08OutputFormat(c)
+	hasF := false
+	for i, a := range n.Inv.Args {
+		if a == "-f" {
+			hasF = true
+		}
+		if to, ok := renamed[a]; ok {
+			n.Inv.Args[i] = to
+		}
+	}
+	if !hasF {
+		if format == "yml" {
+			format = "yaml"
+		}
+		if format == "jsonl" {
+			format = "json"
+		}
+		if format != "json" && format != "yaml" && format != "toml" && format != "json-pretty" {
+			return nil
+		}
+		n.Inv.Args = append([]string{"-f", format}, n.Inv.Args...)
+	}
+	return &n
+}
+
 // dropOutFlag removes "-o file" and pins the format the file would have had.
 func dropOutFlag(args []string, file, ext string) []string {
 	var out []string
@@ -1031,6 +1140,23 @@ func RunC08(e *Env) (int, error) {
 		if key != "" {
 			ev.Sample(map[string]any{"tool": c.Tool, "args": c.Inv.Args, "faults": c.Faults, "files": len(c.World.Files), "status": out.Status})
 		}
+		if obs == nil && out.Status == 0 && out.Crash == "" {
+			// "complete output": the same layers stored as JSON instead of
+			// YAML must print the same thing (a decoder that silently drops
+			// part of a layer shows up here)
+			if tw := jsonTwin(c); tw != nil {
+				_, o2, err := judgeC08(e, tw, "twin", run)
+				if err != nil {
+					return harness.RunResult{Err: err}
+				}
+				ev.Eval("")
+				ev.Count("yaml_vs_json_twin_comparisons", 1)
+				if o2.Crash == "" && !o2.StepsOut && !o2.CPUOut && (o2.Status != 0 || o2.Stdout != out.Stdout) {
+					obs = &c08Obs{Clause: "incomplete-output-compared-with-json-twin", Outcome: trimOutcome(out),
+						Note: fmt.Sprintf("the same layers stored as JSON print (status %d) %s", o2.Status, short(o2.Stdout, 400))}
+				}
+			}
+		}
 		if obs == nil {
 			return harness.RunResult{}
 		}
@@ -1039,6 +1165,9 @@ func RunC08(e *Env) (int, error) {
 
 	finish := func(v *harness.Violation) (*harness.Violation, string) {
 		c := v.Case.(*C08Case)
+		if v.Clause == "incomplete-output-compared-with-json-twin" {
+			return v, "" // a pair clause: reported as found (the replayer re-runs both serialisations)
+		}
 		if o, ok := v.Observed.(*c08Obs); ok {
 			if key := c08Known(c, o); key != "" {
 				// already recognisable as the listed finding: no need to
@@ -1109,9 +1238,21 @@ func init() {
 		if err := json.Unmarshal(raw, &v); err != nil {
 			return "", nil, err
 		}
-		o, _, err := judgeC08(e, &v.Case, "replay", v.Run)
+		o, out, err := judgeC08(e, &v.Case, "replay", v.Run)
 		if err != nil {
 			return "", nil, err
+		}
+		if v.Clause == "incomplete-output-compared-with-json-twin" && o == nil && out != nil {
+			if tw := jsonTwin(&v.Case); tw != nil {
+				_, o2, err := judgeC08(e, tw, "replay-twin", v.Run)
+				if err != nil {
+					return "", nil, err
+				}
+				if o2.Status != out.Status || o2.Stdout != out.Stdout {
+					return v.Clause, &c08Obs{Clause: v.Clause, Outcome: trimOutcome(out), Note: "JSON twin prints: " + short(o2.Stdout, 400)}, nil
+				}
+			}
+			return "", nil, nil
 		}
 		if o == nil || o.Clause != v.Clause {
 			return "", o, nil
